@@ -230,10 +230,12 @@ impl core::hash::Hasher for TraceHasher {
         0
     }
     fn write(&mut self, bytes: &[u8]) {
-        // strings / byte slices: record length and up to 8 bytes packed
+        // strings / byte slices: record length and up to 3 bytes packed (the harnesses hash strings of at
+        // most 2 bytes; the bound keeps this loop inside the smallest unwind used, also when a longer
+        // buffer is hashed by mistake)
         let mut v: u128 = bytes.len() as u128;
         let mut i = 0;
-        while i < bytes.len() && i < 8 {
+        while i < bytes.len() && i < 3 {
             v = (v << 8) | bytes[i] as u128;
             i += 1;
         }
